@@ -149,18 +149,19 @@ CLAIMS = {
    design="4/C12"),
 
  "C01": dict(
-   technique="typestate of bitmap index kinds (writer/reader agreement over wire field paths) + symbolic sibling agreement + interval evaluation with wrap-around + CFG bounds on in-place rewrites",
+   technique="typestate of bitmap index kinds (writer/reader agreement over wire field paths) + symbolic sibling agreement + interval evaluation with wrap-around + CFG bounds on in-place rewrites + bit-provenance abstract interpretation of the short-node extraction",
    text=("Decides necessary conditions of no-false-negatives that hold for every key set: every rank/select site (library calls and the inlined "
          "idiom, receiver-relative sites bound at call sites) assumes exactly the index kind its wire bitmap is built with and pairs words with "
          "the index of the same bitmap; every copy of the node-layout computation yields the same normalised from/to/short-bitmap terms and "
          "guards, derived constants and the builder's (4,17)/(8,257) size pairs agree; the query-byte-to-label-index function has value ranges "
          "exactly {0}, [1,16], [1,256] per branch under wrap-around interval evaluation (all bytes 0x00-0xff addressable, no sign extension); presence "
          "bitmaps are sized by the last ordinal plus one in the same builder counters; the value-array width is decided per element; in-place "
-         "rewrites of node sizes touch only ordinals >= BigInnerCnt; every Encoder's Encode returns memory of its own (the builder keeps all results). "
+         "rewrites of node sizes touch only ordinals >= BigInnerCnt; every Encoder's Encode returns memory of its own (the builder keeps all results); the index into the short-node table is, by bit-provenance "
+         "evaluation over all (offset mod 64, ShortSize) cases, exactly the stored bits of the node, with no read beyond the node's last word. "
          "Does not decide that ranks select the right child."),
    design="4/C01"),
  "C10": dict(
-   technique="CFG dominance/reachability guards (overrun, key index, empty trie incl. sentinel-correlated guards) + symbolic sibling agreement + typestate of conditionally assigned session fields",
+   technique="CFG dominance/reachability guards (overrun, key index, empty trie incl. sentinel-correlated guards) + symbolic sibling agreement + typestate of conditionally assigned session fields + bit-provenance abstract interpretation of the short-node extraction",
    text=("Decides the guards the lookups' totality rests on and the by-construction part of consistency: step-mode cursor advances are checked "
          "against the key length on every path to the next label lookup; the only key byte read is dominated by cursor<keyBitLen and sessions "
          "are created with keyBitLen=8*len(key); lookups never dereference the node-type bitmap of an empty trie (nil tests or the callee's own "
@@ -168,7 +169,7 @@ CLAIMS = {
          "GetID, RangeGet/Search one descent, both descents update the cursor with identical terms; session fields the node decoders assign only "
          "for some nodes (bm, innerPrefix, leafPrefix) are assigned exactly when their discriminator says valid and read only under it, so a "
          "reused session never leaks a previous node's value, and the bit length of a stored prefix reads its marker byte; both descents compare the leaf "
-         "tail under the same section tests; no lookup, scan or build code ranges over key material by runes. No-panic in general needs data invariants "
+         "tail under the same section tests; no lookup, scan or build code ranges over key material by runes; the short-node extraction reads no word beyond the node for any offset and size (bit-provenance evaluation). No-panic in general needs data invariants "
          "and is not decided."),
    design="4/C10"),
  "C03": dict(
